@@ -152,3 +152,66 @@ func VerifC02_Periodic() {
 	}
 	vnd.Assert(!s.JobExists(ctx, "tick"), "C02.periodic.job-table-empty-afterwards")
 }
+
+// VerifC02_CancelGroup: cancelling a group of jobs by prefix while one member
+// of the group is being started early (or cancelled on its own). Every member
+// whose time lies clearly after the group cancellation and that nobody claimed
+// never runs, whatever happens to the other members; the table holds no member
+// afterwards.
+func VerifC02_CancelGroup() { c02CancelGroup(true) }
+
+// VerifC02_CancelGroupCancel: the same with the member cancelled on its own
+// rather than started early.
+func VerifC02_CancelGroupCancel() { c02CancelGroup(false) }
+
+func c02CancelGroup(early bool) {
+	s := &Service{jobs: make(map[string]*job)}
+	ctx := context.Background()
+	var runs [2]int
+	var at [2]time.Duration
+	names := [2]string{"grp-a", "grp-b"}
+	for i := range names {
+		i := i
+		// grp-a at a symbolic time; the others two hours out (after everything else)
+		at[i] = 2 * time.Hour
+		if i == 0 {
+			at[i] = c02Delay("job.delay")
+		}
+		err := s.ScheduleJob(ctx, "class", names[i], time.Now().Add(at[i]), func(_ context.Context) { runs[i]++ })
+		vnd.Assert(err == nil, "C02.group.accepted")
+	}
+	dc := c02Delay("canceljobs.at")
+	cancelled := false
+	go func() {
+		vnd.Sleep(dc)
+		s.CancelJobs(ctx, "grp-")
+		cancelled = true
+	}()
+	// one member is claimed at the same time by someone else
+	dr := c02Delay("single.at")
+	var singleErr error
+	go func() {
+		vnd.Sleep(dr)
+		if early {
+			singleErr = s.RunJob(ctx, "grp-a")
+		} else {
+			singleErr = s.CancelJob(ctx, "grp-a")
+		}
+	}()
+	left := vnd.Quiesce()
+	vnd.Assert(left == 0 && cancelled, "C02.group.cancel-returns-no-goroutine-left-blocked")
+	for i := range names {
+		vnd.Assert(runs[i] <= 1, "C02.group.never-runs-twice")
+	}
+	// grp-b is nobody's but the group cancellation's, which comes clearly before its time
+	vnd.Assert(runs[1] == 0, "C02.group.member-cancelled-before-its-time-never-runs")
+	if dc < at[0] && (!early || dc < dr) {
+		vnd.Cover("C02.group.member-cancelled-clearly-before-its-time")
+		vnd.Assert(runs[0] == 0, "C02.group.member-cancelled-before-its-time-never-runs")
+	}
+	if early && singleErr == nil {
+		vnd.Cover("C02.group.member-started-early")
+		vnd.Assert(runs[0] == 1, "C02.group.successful-runjob-means-the-job-runs")
+	}
+	vnd.Assert(!s.JobExists(ctx, "grp-a") && !s.JobExists(ctx, "grp-b"), "C02.group.job-table-empty-afterwards")
+}
